@@ -27,23 +27,40 @@ def design(ctx, patterns, dates, offsets, nums, name="MC_C05"):
 
 def _case(job):
     """one `bumpver test OLD PATTERN <flags> --date D` invocation -> incr event"""
-    pat, kw, date, f, newdate = job
+    pat, kw, date, f, newdate = job[:5]
+    mode = job[5] if len(job) > 5 else "cli"
     from bumpver import v2version
     v = glue.make_vinfo(date, **kw)
     old = v2version.format_version(v, pat)
     if old == "":
         return None
     args = ["test", old, pat] + glue.cli_flags(f, newdate)
-    r = drive.cli(args)
-    if r.exit == 0:
-        out = r.new_version()
-        o = glue.cp(out) if out else [0]
-    elif r.exc and "OverflowError" in r.exc:
-        o = [0, 0]
+    if mode == "lib":
+        # the library entry point (no gate behind it): what `incr` itself computes
+        r = drive.Run()
+        r.exit, r.exc = 0, None
+        try:
+            out = v2version.incr(old, pat, major=f["major"], minor=f["minor"], patch=f["patch"], tag=None if f["tag"] == "none" else f["tag"],
+                                 tag_num=f["tag_num"], pin_increments=f["pin_increments"], pin_date=f["pin_date"],
+                                 maybe_date=None if f["pin_date"] else newdate)
+            o = glue.cp(out) if out else [0]
+        except OverflowError:
+            o = [0, 0]
+        except Exception as ex:  # pylint:disable=broad-except
+            o = [0]
+            r.exc = "%s: %s" % (type(ex).__name__, ex)
+        args = ["lib:incr"] + args[1:]
     else:
-        o = [0]
+        r = drive.cli(args)
+        if r.exit == 0:
+            out = r.new_version()
+            o = glue.cp(out) if out else [0]
+        elif r.exc and "OverflowError" in r.exc:
+            o = [0, 0]
+        else:
+            o = [0]
     return dict(ev="incr", P=glue.parse_pattern(pat), old=glue.cp(old), f=f, date=newdate.toordinal(), today=drive.TODAY.toordinal(),
-                out=o, dbg="%s %s %s" % (pat, old, " ".join(args[3:])), exc=r.exc or "", exit=r.exit, pat=pat)
+                out=o, dbg="%s %s %s %s" % (args[0], pat, old, " ".join(args[3:])), exc=r.exc or "", exit=r.exit, pat=pat)
 
 
 def gen_jobs(ctx, rng, patterns, n):
@@ -55,15 +72,18 @@ def gen_jobs(ctx, rng, patterns, n):
         kw = corpus.random_state_kw(rng)
         f = corpus.random_flags(rng, pat)
         nd = date + dt.timedelta(days=rng.choice(corpus.DATE_OFFSETS))
-        if not (dt.date(1000, 1, 1) <= nd <= dt.date(9999, 12, 31)):
+        if not (dt.date(2001, 1, 1) <= nd <= dt.date(2099, 12, 31)):      # two-digit year parts are only meaningful on 2001..2099
             nd = date
-        jobs.append((pat, kw, date, f, nd))
+        jobs.append((pat, kw, date, f, nd, "lib" if i % 3 == 0 else "cli"))
     # README-style systematic part: every flag set on one state per core pattern
     for pat in DESIGN_CORE:
         date = dt.date(2021, 7, 29)
         kw = dict(major=1, minor=9, patch=99, bid="1999", tag="beta", num=1, inc0=9, inc1=10)
         for f in corpus.all_flag_sets(pat):
             jobs.append((pat, kw, date, f, date + dt.timedelta(days=rng.choice([0, 40]))))
+        kw = dict(major=1, minor=0, patch=9, bid="0999", tag="final", num=0, inc0=0, inc1=1)
+        for f in corpus.all_flag_sets(pat):
+            jobs.append((pat, kw, date, f, date + dt.timedelta(days=rng.choice([0, 40])), "lib"))
     return jobs
 
 
@@ -73,10 +93,16 @@ def classify(ctx, e, f):
     facts = dict(clause=clause, event="incr")
     flags = {k: v for k, v in e["f"].items() if v and v != "none"}
     case = dict(pattern=e["pat"], old=glue.uncp(e["old"]), flags=flags, date=str(glue.date_of(e["date"])),
-                out=glue.uncp(e["out"]) if e["out"][0] else None, cmd="bumpver " + e["dbg"])
+                out=glue.uncp(e["out"]) if e["out"][0] else None, cmd=e["dbg"])
     if clause in ("incr:refusal", "incr:divergence", "incr:old-unreadable"):
         ctx.divergence(clause, case)
         return
+    if clause == "incr:new-unreadable" and not e["f"]["pin_date"]:
+        d = glue.date_of(e["date"])
+        if (d.strftime("%W") == "53" and ("WW" in e["pat"] or "0W" in e["pat"])) or (d.strftime("%U") == "53" and ("UU" in e["pat"] or "0U" in e["pat"])):
+            # the library renders week 53, which its recogniser rejects: finding S1, recorded under C02 (the CLI gate refuses such a bump)
+            ctx.divergence("week 53 rendered by incr is not readable (finding S1, property C02)", case)
+            return
     if clause.startswith("incr:rule:"):
         facts["field"] = clause[len("incr:rule:"):]
     facts["pin_date"] = bool(e["f"]["pin_date"])
@@ -118,5 +144,5 @@ def run(ctx):
     ctx.rule = ("seeded random (pattern, state, flags, date, new date) cases over a corpus of %d grammar patterns plus all flag sets on a fixed state "
                 "for 6 core patterns, each run through `bumpver test`; non-trivial = distinct cases in which a new version was produced" % len(pats))
     for e in events[:3]:
-        ctx.sample(dict(cmd="bumpver " + e["dbg"], out=glue.uncp(e["out"]) if e["out"][0] else "refused"))
+        ctx.sample(dict(cmd=e["dbg"], out=glue.uncp(e["out"]) if e["out"][0] else "refused"))
     ctx.assumptions += ["version texts up to ~40 code points; dates 2001..2099 plus boundary dates", "refusals by the code where the spec would bump are divergences, not violations (C05 speaks about bumped versions)"]
